@@ -29,4 +29,74 @@ contract wrappedReader.Read
   loop 2 invariant[C12] forall j in 0..idx1 :: teed(self.writer[j], p, n)
   loop 2 invariant[C12] teed(self.writer[idx1], p, wTotal) && wTotal <= n
   loop 2 invariant[C12] forall j in idx1 + 1..len(self.writer) :: untouchedWriter(self.writer[j])
+
+// ---------- C14: series accounting over one parsed payload ----------
+// samples kept by the job's metric relabel rules (bumped whenever relabel.Process returns a non-nil label set)
+ghost global gKept int
+// delta sums over the per-metric entries (every store to MetricSamplesInfo.Total / .Scraped adds its difference)
+ghost global gMetricTotal real
+ghost global gMetricScraped real
+
+on after relabel.Process(lbls, cfgs) in StatisticSeries
+   do gKept = gKept + ite(result != nil, 1, 0)
+
+// "applying the job's metric relabel rules to each sample's own labels": the label list handed to the rules is built
+// from this row alone (its metric name, then its tags in order), and the rules are the job's
+on call relabel.Process(lbls, cfgs) in StatisticSeries
+   assert[C14] @own_labels_only len(lbls) == 1 + len(row.Tags) && lbls[0].Name == "__name__" && lbls[0].Value == row.Metric
+        && (forall j in 0..len(row.Tags) :: lbls[1 + j].Name == row.Tags[j].Key && lbls[1 + j].Value == row.Tags[j].Value)
+   assert[C14] @job_rules cfgs == rc
+
+on store MetricSamplesInfo.Total(o, v) in StatisticSeries
+   do gMetricTotal = gMetricTotal + v - o.Total
+   assert[C14] @entry_of_this_metric o == result.MetricsTotal[row.Metric]
+on store MetricSamplesInfo.Scraped(o, v) in StatisticSeries
+   do gMetricScraped = gMetricScraped + v - o.Scraped
+   assert[C14] @entry_of_this_metric o == result.MetricsTotal[row.Metric]
+
+contract StatisticSeries
+  requires result != nil && result.MetricsTotal != nil
+  ensures[C14] @total_counts_every_sample result.Total == old(result.Total) + toreal(len(rows))
+  ensures[C14] @scraped_counts_kept_samples result.ScrapedTotal == old(result.ScrapedTotal) + toreal(gKept - old(gKept))
+  ensures[C14] @per_metric_counts_add_up gMetricTotal - old(gMetricTotal) == result.Total - old(result.Total)
+        && gMetricScraped - old(gMetricScraped) == result.ScrapedTotal - old(result.ScrapedTotal)
+  modifies StatisticsSeriesResult.Total at {result}, StatisticsSeriesResult.ScrapedTotal at {result}, mapof(StatisticsSeriesResult.MetricsTotal),
+           MetricSamplesInfo.*, gKept, gMetricTotal, gMetricScraped
+  loop 1 invariant result.Total == old(result.Total) + toreal(idx1)
+  loop 1 invariant result.ScrapedTotal == old(result.ScrapedTotal) + toreal(gKept - old(gKept))
+  loop 1 invariant gMetricTotal - old(gMetricTotal) == result.Total - old(result.Total)
+  loop 1 invariant gMetricScraped - old(gMetricScraped) == result.ScrapedTotal - old(result.ScrapedTotal)
+  loop 1 invariant result.MetricsTotal != nil && result.MetricsTotal == old(result.MetricsTotal)
+  loop 2 invariant result.Total == old(result.Total) + toreal(idx1)
+  loop 2 invariant result.ScrapedTotal == old(result.ScrapedTotal) + toreal(gKept - old(gKept))
+  loop 2 invariant gMetricTotal - old(gMetricTotal) == result.Total - old(result.Total) + toreal(1)
+  loop 2 invariant gMetricScraped - old(gMetricScraped) == result.ScrapedTotal - old(result.ScrapedTotal)
+  loop 2 invariant result.MetricsTotal != nil && result.MetricsTotal == old(result.MetricsTotal)
+  loop 2 invariant result.MetricsTotal[n] != nil && n == row.Metric
+  loop 2 invariant fresh(lset) && len(lset) == 1 + idx2 && lset[0].Name == "__name__" && lset[0].Value == row.Metric
+  loop 2 invariant forall j in 0..idx2 :: lset[1 + j].Name == row.Tags[j].Key && lset[1 + j].Value == row.Tags[j].Value
+
+// ---------- the scraper as the proxy uses it (C12 wiring, C13) ----------
+contract NewScraper
+  ensures result != nil && fresh(result) && result.job == job && len(result.writer) == 0 && result.HTTPResponse == nil
+  modifies Scraper.* at {}
+
+// bytes reach a writer only through the tee reader, i.e. only writers attached to this scraper can receive any
+pred onlyAttachedWritten(s) = forall q : int :: (forall j in 0..len(s.writer) :: payload(s.writer[j]) != q) ==> (gOutLen[q] == old(gOutLen[q]) && gOutData[q] == old(gOutData[q]))
+
+// RequestTo performs the HTTP request; nothing is read from the body yet, so no writer receives anything
+contract Scraper.RequestTo
+  requires s != nil && s.job != nil
+  ensures[C12] @nothing_written_yet forall q : int :: gOutLen[q] == old(gOutLen[q]) && gOutData[q] == old(gOutData[q])
+  ensures result == nil ==> s.HTTPResponse != nil && s.reader != nil && s.ctxCancel != nil
+  ensures s.writer == old(s.writer) && s.job == old(s.job)
+  modifies Scraper.* at {s}
+
+// ParseResponse drives the statistics parser over s.reader (the tee reader built by RequestTo)
+contract Scraper.ParseResponse
+  requires s != nil
+  ensures[C12] @only_attached_writers_receive_bytes onlyAttachedWritten(s)
+  ensures forall q : int :: gOutLen[q] >= old(gOutLen[q])
+  ensures forall x : *StatisticsSeriesResult :: old(allocated(x)) ==> (x.Total >= old(x.Total) && x.ScrapedTotal >= old(x.ScrapedTotal))
+  modifies gOutLen, gOutData, StatisticsSeriesResult.*, MetricSamplesInfo.*, mapof(StatisticsSeriesResult.MetricsTotal), gKept, gMetricTotal, gMetricScraped
 @*/
